@@ -60,7 +60,14 @@ def step (k : Keeper) (line : String) : Keeper × String :=
       | (.ok t, k') =>
         let ins := if t.ins.isEmpty then "-" else joinWith "+" (t.ins.map fun u => toString u.id)
         let outs := if t.outs.isEmpty then "-" else joinWith ";" (t.outs.map fun o => s!"{kindName o.kind}:{o.asset}:{o.amount}:{o.prog}")
-        fin k' s!"ok fee={t.fee} ins={ins} outs={outs}"
+        let mux := match tplCheck t with
+          | .ok v => if v ≥ 20000000 then "ok" else "lowfee"
+          | .error .doubleSpend => "doublespend"
+          | .error .overflow => "overflow"
+          | .error .noSource => "nosource"
+          | .error .unbalanced => "unbalanced"
+          | .error .gasNegative => "gas"
+        fin k' s!"ok fee={t.fee} ins={ins} outs={outs} mux={mux}"
       | (.error es, k') => fin k' ("err " ++ joinWith "," (es.map fun e => s!"{e.1}:{errName e.2}"))
     | _, _ => (k, "bad-op")
   | _ => (k, "bad-op")
